@@ -73,7 +73,7 @@ def classes():
             self._log.append(("E", sim_round, step, time))
             self._do("E", sim_round, step, 0)
             # events the next step will find (evidence only)
-            self._pending_at_entry = len(self.events) + len(self.scheduler.delayed_events)
+            self._pending_at_entry = len(getattr(self, "events", ())) + len(getattr(self.scheduler, "delayed_events", ()))
 
     return LogModel, LogAgent, LogCollector
 
